@@ -10,11 +10,12 @@ while IFS= read -r f; do
   ADD+=(-add "/repo/$rel=$f")
 done < <(find "$ROOT/shims" -name '*.go' 2>/dev/null | sort)
 PKGS=()
+SM=()
 while IFS= read -r p; do
   [ -z "$p" ] && continue
-  case "$p" in \#*) continue;; esac
+  case "$p" in \#*) continue;; "!sortmap "*) SM+=(-sortmap "${p#!sortmap }"); continue;; esac
   case "$p" in /*) PKGS+=("$p");; @harness/*) PKGS+=("$ROOT/harness/${p#@harness/}");; *) PKGS+=("/repo/$p");; esac
 done < "$ROOT/instrumented-packages.txt"
 SRC=()
 [ -n "${VERIF_SRC_OVERLAY:-}" ] && SRC=(-src-overlay "$VERIF_SRC_OVERLAY")
-"$ROOT/.work/bin/vinstr" -out "$W/instr" -overlay "$W/overlay.json" "${SRC[@]}" "${ADD[@]}" "${PKGS[@]}" 2>"$W/vinstr.log" || { cat "$W/vinstr.log"; exit 2; }
+"$ROOT/.work/bin/vinstr" -out "$W/instr" -overlay "$W/overlay.json" "${SRC[@]}" "${SM[@]}" "${ADD[@]}" "${PKGS[@]}" 2>"$W/vinstr.log" || { cat "$W/vinstr.log"; exit 2; }
